@@ -62,17 +62,23 @@ Definition B_ := mkobs.
 Definition C_ := mkcase.
 Definition f_collide (c : ccase) := negb (sig_collide (lookup (c_md5 c)) (c_study c)).
 Definition f_slash (c : ccase) := negb (sig_slash (lookup (c_md5 c)) (c_study c)).
-Definition f_dots (c : ccase) := negb (sig_dots (lookup (c_md5 c)) (c_study c)).
-Definition f_empty (c : ccase) := negb (sig_empty (lookup (c_md5 c)) (c_study c)).
+Definition f_degenerate (c : ccase) := negb (sig_degenerate (lookup (c_md5 c)) (c_study c)).
 """
 
-KNOWN_IDS = {"collide": "K1a", "slash": "K1b", "dots": "K1c", "empty": "K1d"}
-KNOWN_WHAT = {
-    "collide": "names that differ only in characters make_safe_path strips or rewrites share a workspace",
-    "slash": "a '/' in a label or step name makes the script path leave the workspace (open() fails)",
-    "dots": "a component that sanitises to '.' or '..' resolves to the step / study directory or above it",
-    "empty": "a component that sanitises to the empty string resolves to the parent directory",
-}
+# signature predicates of SafePath.v (a `known:` line of KNOWN_FINDINGS.txt names one of
+# them; only signatures listed there excuse a failing monitor)
+SIGS = ("collide", "slash", "degenerate")
+
+
+def known_table(ck):
+    """{short signature name: (id, what)} for the `known:` lines of this property."""
+    res = {}
+    for k in (ck.known if ck is not None else common.load_known(PID)):
+        sig = k.get("signature", "")
+        if sig.startswith("sig_") and sig[4:] in SIGS:
+            res[sig[4:]] = (k.get("id", "K?"), k.get("what", sig))
+    return res
+
 
 ROOT = "/R/study"
 TMP = "/T/tmpd"
@@ -596,7 +602,7 @@ def describe(case, obs):
 
 
 FNS = ["case_fine", "case_wf", "case_agree", "case_tree", "case_monitor", "case_h10",
-       "f_collide", "f_slash", "f_dots", "f_empty"]
+       "f_collide", "f_slash", "f_degenerate"]
 
 
 def coq_failing_multi(tag, ty, fns, lits, shard):
@@ -654,10 +660,13 @@ def model_text(case, obs):
                            "tree_of (model_obs (lookup (c_md5 c)) (c_study c)))" % lit)[-6000:]
 
 
-def classify(ck, case, obs, d, report=True):
-    """Verdict for one case that is not fine.  Returns 'known', 'violation' or 'mismatch'."""
+def classify(ck, case, obs, d, report=True, known=None):
+    """Verdict for one case that is not fine.  Returns 'known', 'violation' or 'mismatch'.
+    A failing monitor is excused only by a signature that holds of the case AND
+    is listed in KNOWN_FINDINGS.txt."""
+    known = known_table(ck) if known is None else known
     cj = dict(strip(case), observed=obs)
-    sigs = [k for k in ("collide", "slash", "dots", "empty") if not d["f_" + k]]
+    sigs = [k for k in SIGS if not d["f_" + k] and k in known]
     if not d["case_wf"]:
         if report:
             ck.mismatch("harness generated a case that is not well-formed (wf_study false)", cj)
@@ -666,7 +675,7 @@ def classify(ck, case, obs, d, report=True):
         if sigs:
             if report:
                 for k in sigs:
-                    ck.known_hit(KNOWN_IDS[k], KNOWN_WHAT[k])
+                    ck.known_hit(*known[k])
                 if not d["case_agree"]:
                     ck.mismatch("known-finding case, but model and implementation disagree on the paths: " +
                                 describe(case, obs), cj, model_text(case, obs))
@@ -745,7 +754,7 @@ def run(ck):
     for i in bad:
         v = classify(ck, cases[i], obss[i], detail[i])
         if v == "known":
-            for k in ("collide", "slash", "dots", "empty"):
+            for k in SIGS:
                 if not detail[i]["f_" + k]:
                     seen_known[k] = seen_known.get(k, 0) + 1
     # corpus expectations: a known-finding witness that no longer fails is only noted
@@ -898,9 +907,10 @@ def replay(ck, path):
     print("verdicts:", json.dumps(d))
     v = classify(ck, case, o, d, report=False)
     if v == "known":
-        for k in ("collide", "slash", "dots", "empty"):
-            if not d["f_" + k]:
-                print("KNOWN-FINDING: property=C10 %s %s" % (KNOWN_IDS[k], KNOWN_WHAT[k]))
+        kt = known_table(ck)
+        for k in SIGS:
+            if not d["f_" + k] and k in kt:
+                print("KNOWN-FINDING: property=C10 %s %s" % kt[k])
         return 0
     if v == "violation":
         print("VIOLATION property=C10 replay=%s" % path)
